@@ -58,7 +58,9 @@ pub assume_specification<T> [ <[T]>::reverse ] (s: &mut [T])
 
 const DEFAULT_K : u16 = 200 ;
 
+
 const BUFFER_MULTIPLIER : usize = 4 ;
+
 
 
 
@@ -70,9 +72,11 @@ NonZeroU64 :: new ( 1 ) . unwrap ( ) }
 
 
 
+
 #[derive(Debug, Clone, Copy, PartialEq)]
 struct Centroid {
 mean : f64 , weight : NonZeroU64 , }
+
 
 
 
@@ -83,14 +87,17 @@ k : u16 , reverse_merge : bool , min : f64 , max : f64 , centroids : Vec < Centr
 
 
 
+
 struct TDigest {
 k : u16 , reverse_merge : bool , min : f64 , max : f64 , centroids : Vec < Centroid > , centroids_weight : u64 , }
 
 
 
 
+
 struct TDigestView < 'a > {
 min : f64 , max : f64 , centroids : & 'a [ Centroid ] , centroids_weight : u64 , }
+
 
 
 
@@ -201,6 +208,7 @@ self . weight . get ( ) as f64 }
 
 
 
+
 }
 #[verifier::external_body]
 fn centroid_cmp(a: &Centroid, b: &Centroid) -> Ordering { unimplemented!() }
@@ -233,10 +241,12 @@ panic! ( ) ;
 
 
 
+
 impl Default for TDigestMut {
     fn default ( ) -> ( r : Self ) ensures
 /*@C10.default_k*/ r . is_default ( ) {
 TDigestMut :: new ( DEFAULT_K ) }
+
 
 }
 
@@ -269,6 +279,7 @@ k , reverse_merge , min , max , centroids , centroids_weight , centroids_capacit
 
 
 
+
     fn update ( & mut self , value : f64 ) requires old ( self ) . wf ( ) , old ( self ) . total ( ) < u64 :: MAX ensures
 /*@C10.update_keeps_invariant*/ final ( self ) . wf ( ) , final ( self ) . same_cfg ( old ( self ) ) ,
 /*@C10.nonfinite_ignored*/ ! f_finite ( value ) ==> * final ( self ) == * old ( self ) ,
@@ -288,8 +299,10 @@ self . max = self . max . max ( value ) ;
 
 
 
+
     fn is_empty ( & self ) -> ( r : bool ) ensures r == ( self . centroids @ . len ( ) == 0 && self . buffer @ . len ( ) == 0 ) {
 self . centroids . is_empty ( ) && self . buffer . is_empty ( ) }
+
 
 
 
@@ -314,13 +327,15 @@ return Err ( Error :: invalid_argument ( format! ( "k must be at least 10, got {
 proof {
 assert ( wsum ( Seq :: < Centroid > :: empty ( ) ) == 0 ) ;
 }
-Ok ( TDigestMut :: make ( k , false , vx_f64_infinity ( ) , vx_f64_neg_infinity ( ) , vec! [ ] , 0 , vec! [ ] , ) ) }
+Ok ( Self :: make ( k , false , vx_f64_infinity ( ) , vx_f64_neg_infinity ( ) , vec! [ ] , 0 , vec! [ ] , ) ) }
+
 
 
 
     fn k ( & self ) -> ( r : u16 ) ensures
 /*@C10.k_getter*/ r == self . k {
 self . k }
+
 
 
 
@@ -346,6 +361,7 @@ self . view ( ) . rank ( value ) }
 
 
 
+
     fn quantile ( & mut self , rank : f64 ) -> ( r : Option < f64 > ) requires old ( self ) . wf ( ) , f_in_unit ( rank ) ensures final ( self ) . wf ( ) , final ( self ) . same_cfg ( old ( self ) ) , final ( self ) . total ( ) == old ( self ) . total ( ) ,
 /*@C10.quantile_shape*/ r is None <==> old ( self ) . empty ( ) , {
 assert! ( vx_in_unit_interval ( & rank ) ) ;
@@ -356,12 +372,14 @@ self . view ( ) . quantile ( rank ) }
 
 
 
+
     fn min_value ( & self ) -> ( r : Option < f64 > ) ensures r is None <==> self . empty ( ) , r matches Some ( v ) ==> v == self . min {
 if self . is_empty ( ) {
 None }
 else {
 Some ( self . min ) }
 }
+
 
 
 
@@ -376,9 +394,11 @@ Some ( self . max ) }
 
 
 
+
     fn total_weight ( & self ) -> ( r : u64 ) requires self . total ( ) <= u64 :: MAX ensures
 /*@C10.total_weight*/ r == self . centroids_weight + self . buffer @ . len ( ) {
 self . centroids_weight + self . buffer . len ( ) as u64 }
+
 
 
 
@@ -442,11 +462,13 @@ self . do_merge ( tmp , self . buffer . len ( ) as u64 + other . total_weight ( 
 
 
 
+
     fn view ( & mut self ) -> ( r : TDigestView < '_ > ) requires old ( self ) . wf ( ) ensures r . centroids @ == final ( self ) . centroids @ , r . centroids_weight == final ( self ) . centroids_weight , final ( self ) . wf ( ) , final ( self ) . same_cfg ( old ( self ) ) , final ( self ) . total ( ) == old ( self ) . total ( ) , final ( self ) . buffer @ . len ( ) == 0 , ! old ( self ) . empty ( ) ==> final ( self ) . centroids @ . len ( ) >= 1 , {
 self . compress ( ) ;
 TDigestView {
 min : self . min , max : self . max , centroids : & self . centroids , centroids_weight : self . centroids_weight , }
 }
+
 
 
 
@@ -463,6 +485,7 @@ self . view ( ) . cdf ( split_points ) }
 
 
 
+
     fn pmf ( & mut self , split_points : & [ f64 ] ) -> ( r : Option < Vec < f64 >> ) requires old ( self ) . wf ( ) , split_points @ . len ( ) == 1 ==> ! f_is_nan ( split_points @ [ 0 ] ) , forall | i : int | 0 <= i < split_points @ . len ( ) - 1 ==> f_lt ( # [ trigger ] split_points @ [ i ] , split_points @ [ i + 1 ] ) , ensures final ( self ) . wf ( ) , final ( self ) . total ( ) == old ( self ) . total ( ) ,
 /*@C10.pmf_shape*/ r is None <==> old ( self ) . empty ( ) ,
 /*@C10.cdf_pmf_len*/ r matches Some ( v ) ==> v @ . len ( ) == split_points @ . len ( ) + 1 , {
@@ -475,8 +498,10 @@ self . view ( ) . pmf ( split_points ) }
 
 
 
+
     fn is_single_value ( & self ) -> ( r : bool ) requires self . total ( ) <= u64 :: MAX ensures r == ( self . total ( ) == 1 ) {
 self . total_weight ( ) == 1 }
+
 
 
 
@@ -505,6 +530,7 @@ lemma_wsum_push ( t0 , tmp @ . last ( ) ) ;
 vx_i1 += 1 ;
 }
 self . do_merge ( tmp , self . buffer . len ( ) as u64 ) }
+
 
 
 
@@ -600,6 +626,7 @@ self . buffer . clear ( ) ;
 
 
 
+
 }
 
 
@@ -613,10 +640,12 @@ self . centroids_weight }
 
 
 
+
     fn view ( & self ) -> ( r : TDigestView < '_ > ) ensures r . centroids @ == self . centroids @ , r . centroids_weight == self . centroids_weight {
 TDigestView {
 min : self . min , max : self . max , centroids : & self . centroids , centroids_weight : self . centroids_weight , }
 }
+
 
 
 
@@ -629,10 +658,12 @@ self . view ( ) . cdf ( split_points ) }
 
 
 
+
     fn pmf ( & self , split_points : & [ f64 ] ) -> ( r : Option < Vec < f64 >> ) requires split_points @ . len ( ) == 1 ==> ! f_is_nan ( split_points @ [ 0 ] ) , forall | i : int | 0 <= i < split_points @ . len ( ) - 1 ==> f_lt ( # [ trigger ] split_points @ [ i ] , split_points @ [ i + 1 ] ) , ensures
 /*@C10.pmf_shape*/ r is None <==> self . centroids @ . len ( ) == 0 ,
 /*@C10.cdf_pmf_len*/ r matches Some ( v ) ==> v @ . len ( ) == split_points @ . len ( ) + 1 , {
 self . view ( ) . pmf ( split_points ) }
+
 
 
 
@@ -643,9 +674,11 @@ self . k }
 
 
 
+
     fn is_empty ( & self ) -> ( r : bool ) ensures
 /*@C10.frozen_is_empty*/ r == ( self . centroids @ . len ( ) == 0 ) {
 self . centroids . is_empty ( ) }
+
 
 
 
@@ -658,12 +691,14 @@ Some ( self . min ) }
 
 
 
+
     fn max_value ( & self ) -> ( r : Option < f64 > ) ensures r is None <==> self . centroids @ . len ( ) == 0 , r matches Some ( v ) ==> v == self . max {
 if self . is_empty ( ) {
 None }
 else {
 Some ( self . max ) }
 }
+
 
 
 
@@ -674,6 +709,7 @@ self . view ( ) . rank ( value ) }
 
 
 
+
     fn quantile ( & self , rank : f64 ) -> ( r : Option < f64 > ) requires f_in_unit ( rank ) ensures
 /*@C10.quantile_shape*/ r is None <==> self . centroids @ . len ( ) == 0 {
 assert! ( vx_in_unit_interval ( & rank ) ) ;
@@ -681,9 +717,11 @@ self . view ( ) . quantile ( rank ) }
 
 
 
+
     fn unfreeze ( self ) -> ( r : TDigestMut ) requires self . wf ( ) ensures r . wf ( ) ,
 /*@C10.unfreeze_keeps_total*/ r . total ( ) == self . centroids_weight , r . k == self . k , r . centroids @ == self . centroids @ , {
 TDigestMut :: make ( self . k , self . reverse_merge , self . min , self . max , self . centroids , self . centroids_weight , vec! [ ] , ) }
+
 
 
 
@@ -722,6 +760,7 @@ Some ( buckets ) }
 
 
 
+
     fn cdf ( & self , split_points : & [ f64 ] ) -> ( r : Option < Vec < f64 >> ) requires split_points @ . len ( ) == 1 ==> ! f_is_nan ( split_points @ [ 0 ] ) , forall | i : int | 0 <= i < split_points @ . len ( ) - 1 ==> f_lt ( # [ trigger ] split_points @ [ i ] , split_points @ [ i + 1 ] ) , ensures
 /*@C10.cdf_shape*/ r is None <==> self . centroids @ . len ( ) == 0 ,
 /*@C10.cdf_pmf_len*/ r matches Some ( v ) ==> v @ . len ( ) == split_points @ . len ( ) + 1 , {
@@ -752,6 +791,7 @@ vx_i1 += 1 ;
 }
 ranks . push ( 1.0 ) ;
 Some ( ranks ) }
+
 
 
 
